@@ -25,6 +25,8 @@ Norm(d) ==
     [] d[1] \in {"f64", "dec"} -> NumOf(Canon(d[2], d[3], d[4]))
     [] d[1] = "f64nan" -> <<"nan">>
     [] d[1] = "f64inf" -> <<"inf", d[2]>>
+    [] d[1] = "nilmap" -> <<"map", <<>>>>          \* a nil map is an (empty) map, not null
+    [] d[1] = "nilslice" -> <<"arr", <<>>>>
     [] d[1] = "uint" -> <<"other", "uint">>
     [] d[1] = "imap" -> <<"other", "imap">>
     [] d[1] = "map" -> <<"map", [k \in DOMAIN d[2] |-> Norm(d[2][k])]>>
